@@ -244,7 +244,7 @@ def run(ctx):
     ctx.units("language-table-files", unit_files, [{}])
     ctx.units("keywords-in-role", unit_positive, [{"shard": i, "nshards": ns} for i in range(ns)], procs=ns)
     ctx.units("foreign-keywords", unit_foreign, [{"shard": i, "nshards": ns, "sample": 0, "seed": ctx.seed} for i in range(ns)], procs=ns)
-    ctx.units("header-spellings", unit_header, [{"n": 600 if q else 6000, "seed": ctx.seed, "shard": i} for i in range(4 if q else 16)], procs=16)
+    ctx.units("header-spellings", unit_header, [{"n": 900 if q else 6000, "seed": ctx.seed, "shard": i} for i in range(8 if q else 16)], procs=16)
     nk = sum(len(DIALECTS[d][c]) for d in DIALECTS for c in TITLE_CATS + STEP_CATS)
     ctx.exhaustive = False
     ctx.extra["exhaustive_part"] = ("%d dialects x %d listed keywords x {configured default, language header} x %d layouts: complete; foreign keywords: %s" % (
